@@ -38,6 +38,7 @@ type OblResult struct {
 type FnReport struct {
 	Name    string
 	Err     string
+	BindErr string // part of the contract binds to nothing in the current tree (undecided unless an obligation fails)
 	Results []OblResult
 	Abstr   map[string]int
 	Used    []string
@@ -88,13 +89,14 @@ func VerifyFunction(p *Program, name string, opt Options) FnReport {
 	}
 	for _, ca := range cs.CallAsserts {
 		if !fc.usedCallAssert[ca.Clause.Label+ca.Clause.Text] {
-			rep.Err = fmt.Sprintf("bind: assert@call(%s#%d) matches no call site", ca.Callee, ca.Ord)
-			return rep
+			// the remaining obligations still decide: a failed one is a violation; if all
+			// hold the function is reported undecided (the contract no longer binds fully)
+			rep.BindErr = fmt.Sprintf("bind: assert@call(%s#%d) matches no call site", ca.Callee, ca.Ord)
+			continue
 		}
 		if !fc.usedCallAssert["cover:"+ca.Clause.Label+ca.Clause.Text] {
 			// a clause keyed on literal pieces whose key occurs at no call site says nothing
-			rep.Err = fmt.Sprintf("bind: assert@call(%s) %s is trivially true at every call site: the text it is keyed on is gone", ca.Callee, ca.Clause.Label)
-			return rep
+			rep.BindErr = fmt.Sprintf("bind: assert@call(%s) %s is trivially true at every call site: the text it is keyed on is gone", ca.Callee, ca.Clause.Label)
 		}
 	}
 	semOnce.Do(func() {
